@@ -93,7 +93,11 @@ func VerifC16Apply() {
 			_ = st.UpdateStatus(ctx, "pl", pipeline.StatusRunning, "")
 		}
 		fresh, _ := w.svc.Plan(ctx, newCfg)
-		stale = fresh.Hash != hash
+		// staleness is judged on the change lists themselves (every field the
+		// operator reviewed), not on the hash the code under test computes
+		// (a differing hash alone also obliges the code to refuse: the token
+		// presented is not the current one)
+		stale = pRenderPlan(fresh) != pRenderPlan(plan) || fresh.Hash != hash
 	}
 	allow := verifBool("allowRestart")
 	w.lc.faulty = true
